@@ -6,9 +6,9 @@ from props import _wf
 
 META = {
     "level": "proof",
-    "technique": "Coq: strict recogniser wf_archive written from the format description, writer theorems on the chunk-level writer model, agreement of the strict and the tolerant reader; recogniser run against an independent Rust reference reader (no libpna, primitives only) on library- and CLI-written archives and on single-rule mutations; every produced archive decoded by that reader and compared with its source",
-    "level_text": "Theorems about the Gallina strict recogniser and the chunk-level writer model (Coq, closed under the global context): what the writer model emits is accepted, and on accepted input the strict reader and the library's tolerant reader return the same entries. The recogniser is tied to an independent reference reader by running both on every archive of the run (exact agreement of verdict and reason) and that reader decodes every archive with primitive crypto/compression calls only and compares with the known source contents.",
-    "level_note": "Trusted: Coq kernel + vm_compute; extraction and the OCaml driver (cross-checked each run); the reference reader harness/src/refdec.rs and the primitive crates it calls (aes, camellia, pbkdf2, argon2, flate2, zstd, liblzma, crc32fast); the writer theorems are about the chunk-level writer model of Archive.v/Entry.v (serialisation of parsed/built entries), not about the streaming compressor/cipher pipeline, whose output is covered by decoding every produced archive.",
+    "technique": "Coq: strict recogniser wf_archive/wf_parts written from the format description; general writer theorems (for every list of writable entries the chunk-level writer's archive, and every successful split of it into parts, is accepted and strictly decoded to these entries); byte-level agreement of the strict reader with the library's tolerant stream, slice and part-chaining readers on everything the recogniser accepts; recogniser run against an independent Rust reference reader (no libpna, primitives only) on library- and CLI-written archives and on single-rule mutations; every produced archive decoded by that reader and compared with its source",
+    "level_text": "Theorems about the Gallina strict recogniser, the chunk-level writer model and the splitter model (Coq, closed under the global context, universally quantified — no closed instances): (1) writer_wf: for every list of entries satisfying the explicit predicate `writable` the written archive is accepted by wf_archive and strict_decode returns the entries; (2) strict_agrees at byte level: on every file or part chain the recogniser accepts, the tolerant readers (entries/raw_entries with their fuel, the slice reader, read_parts) end with FinOk and return exactly the strict decoder's entries; (3) split_wf: the parts of every successful write_split of writable entries are accepted by wf_parts, decode to the same entries up to data cuts and are read back by read_parts. The recogniser is tied to an independent reference reader by running both on every archive of the run (exact agreement of verdict and reason) and that reader decodes every archive with primitive crypto/compression calls only and compares with the known source contents.",
+    "level_note": "Trusted: Coq kernel + vm_compute; extraction and the OCaml driver (cross-checked each run); the reference reader harness/src/refdec.rs and the primitive crates it calls (aes, camellia, pbkdf2, argon2, flate2, zstd, liblzma, crc32fast). `writable` (coq/Proofs/WfWriterFacts.v) is a hypothesis of the writer theorems: it lists what the recogniser needs (version 0.0, valid relative name, PHSF of PHC shape iff encrypted, IV and whole CBC blocks, payloads < 2^32, ancillary extras with valid types, metadata ranges); that the CLI only hands such entries to the writer is covered by running the recogniser on every archive the CLI writes.",
 }
 
 def run(tier, seed, replay=None):
